@@ -260,3 +260,39 @@ Definition mon_rule (r : rule) (up : bool) (parsed : fdesc) (al : list attr) : b
 (* any accepted string: the packed attributes decode to the parsed filter (exchanged if uplink) *)
 Definition mon_pack (up : bool) (parsed : fdesc) (al : list attr) : bool :=
   odf_eqb (decode_fd al) (option_map (swap_if up) (dp_of parsed)).
+
+(* any accepted ASCII string has the keyword skeleton of the grammar, and its protocol token is
+   the keyword ip or a decimal numeral whose value (unbounded) is the protocol reported.
+   Own tokenizer and numeral reader, independent of the model's. *)
+Definition isws (c : N) : bool := existsb (N.eqb c) [9; 10; 11; 12; 13; 32].
+Fixpoint toks_aux (l cur : text) : list text :=
+  match l with
+  | [] => match cur with [] => [] | _ => [rev cur] end
+  | c :: r =>
+    if isws c then match cur with [] => toks_aux r [] | _ => rev cur :: toks_aux r [] end
+    else toks_aux r (c :: cur)
+  end.
+Definition toks (s : text) : list text := toks_aux s [].
+Definition dval (l : text) : option N :=
+  match l with
+  | [] => None
+  | _ => fold_left (fun acc c => match acc with
+                                 | Some v => if (48 <=? c) && (c <=? 57) then Some (10 * v + (c - 48)) else None
+                                 | None => None end) l (Some 0)
+  end.
+
+Definition mon_skeleton (s : text) (parsed : fdesc) : bool :=
+  if existsb (fun c => 128 <=? c) s then true else
+  match toks s with
+  | a :: d :: p :: fr :: _ :: t5 :: rest =>
+    N_list_eqb a (txt "permit") && N_list_eqb d (f_dir parsed)
+    && (N_list_eqb d (txt "in") || N_list_eqb d (txt "out")) && N_list_eqb fr (txt "from")
+    && (if N_list_eqb p (txt "ip") then f_proto parsed =? 255
+        else match dval p with Some v => v =? f_proto parsed | None => false end)
+    && match rest with
+       | [] => false
+       | t6 :: rest' => N_list_eqb t5 (txt "to")
+                        || (N_list_eqb t6 (txt "to") && negb (match rest' with [] => true | _ => false end))
+       end
+  | _ => false
+  end.
